@@ -42,7 +42,11 @@ def decodedPart : List (BitVec 32) → Nat → List (BitVec 32)
   | w :: ws, i =>
     if i > 0 && (w :: ws).take 3 == prologue then [] else w :: decodedPart ws (i + 1)
 
-def allDef (ws : List (BitVec 32)) : Bool := (decodedPart ws 0 ++ [0#32]).all (fun w => (decodeDef w).isSome)
+def fbF : Env := { condOk := fun _ _ _ => false, argOk := fun _ _ _ => false }
+def fbT : Env := { condOk := fun _ _ _ => true, argOk := fun _ _ _ => true }
+
+/-- a word is modelled when the oracle-free decoder gives the same answer whether the (two) untranslated predicates hold or not -/
+def allDef (ws : List (BitVec 32)) : Bool := (decodedPart ws 0 ++ [0#32]).all (fun w => decodeFull fbF w == decodeFull fbT w)
 
 def handle (toks : List String) : Option String :=
   match toks with
@@ -70,6 +74,16 @@ def handle (toks : List String) : Option String :=
       | some f => some (if f (BitVec.ofNat 32 n) then "true" else "false")
       | none => some "untranslated"
     | none => some "bad-op"
+  | ["c17.short", w, n] =>
+    match parseNat w, parseNat n with
+    | some wn, some k => if wn ≥ 2 ^ 32 || k ≥ 4 then some "bad-op" else
+      let x := BitVec.ofNat 32 wn
+      let bytes : List (BitVec 8) := [x.setWidth 8, (x >>> 8).setWidth 8, (x >>> 16).setWidth 8, (x >>> 24).setWidth 8]
+      match decodeSrc (claimEnv none) (bytes.take k) with
+      | .short => some "err:short"
+      | .unknown => some "err:unknown"
+      | .ok _ => some "decoded"
+    | _, _ => some "bad-op"
   | ["c17.def", w] =>
     match parseNat w with
     | some n => if n ≥ 2 ^ 32 then some "bad-op" else
@@ -82,7 +96,7 @@ def handle (toks : List String) : Option String :=
     | some l =>
       if !allDef l then some "unmodelled" else
       let start : BitVec 64 := 0x10000000000#64
-      match getInnerFunc (claimEnv none) (memOf l.toArray) start 1100 0 false with
+      match getInnerFunc (genEnv fbF) (memOf l.toArray) start 1100 0 false with
       | .target a => some s!"target={(a - start).toInt}"
       | .zero => some "zero"
       | .err => some "err"
@@ -92,8 +106,19 @@ def handle (toks : List String) : Option String :=
     match parseWords ws, (if m = "0" then some false else if m = "1" then some true else none) with
     | some l, some minimal =>
       if !allDef l then some "unmodelled" else
-      match getFuncSize (claimEnv none) (memOf l.toArray) minimal (l.length + 2) 0 false with
+      match getFuncSize (genEnv fbF) (memOf l.toArray) minimal (l.length + 2) 0 false with
       | some n => some s!"size={n}"
+      | none => some "fuel"
+    | _, _ => some "bad-op"
+  | "c17.size2" :: m :: ws =>
+    match parseWords ws, (if m = "0" then some false else if m = "1" then some true else none) with
+    | some l, some minimal =>
+      if !allDef l then some "unmodelled" else
+      match getFuncSizeCached (genEnv fbF) (memOf l.toArray) minimal (l.length + 2) none with
+      | some (n1, c1) =>
+        match getFuncSizeCached (genEnv fbF) (memOf l.toArray) minimal (l.length + 2) c1 with
+        | some (n2, c2) => some s!"size={n1} again={n2} cached={c2.isSome}"
+        | none => some "fuel"
       | none => some "fuel"
     | _, _ => some "bad-op"
   | t :: _ => if t.startsWith "c17." then some "bad-op" else none
